@@ -4,12 +4,17 @@ CONSTANTS
   BoundSel = {1}
   FactorSel = {1}
   PriorSel = {1,2}
+  ModeSel = {1,2,3}
   KSel = {2}
   MaxLevel = 5
   PriorTable = "persist_user_only"
   ViewSpace = "prior_mode"
   DerivedLookup = "derived"
   ObsMerge = "always"
+  ModeStore = "canonical"
+  UpdateGuard = "before"
+  ModeCalls <- MCModeCalls
+  InvalidModes <- MCInvalidOne
   ObsParams <- MCObsParams
   Record = TRUE
   Export = "all"
